@@ -252,15 +252,18 @@ def main():
                 for leaf in ("ok", "bad"):
                     data, tree = chain(clsname, pos, depth, leaf=leaf)
                     add("cost", clsname, pos[0], data, tree, 0, leaf)
-    cres = tlc.judge("Trace_DepthSteps", "Trace_DepthSteps.cfg", ctx_recs, workers=4)
-    nctx = sum(len(x["ctx"]) for x in ctx_recs)
-    if cres.distinct != nctx or not ctx_recs:
-        raise MachineryError("trace acceptance (context steps): TLC visited %d states, expected %d" % (cres.distinct, nctx))
-    ck.mc(cres, "Trace context steps")
-    ck.count("context_creations_validated_against_Depth_CtxDepth", nctx)
-    if cres.tagged("DIV"):
-        ck.count("context_step_divergences", len(cres.tagged("DIV")))
-        ck.note("divergence: a context's depth is not one Depth!CtxDepth step from its parent's: %s" % cres.tagged("DIV")[:3])
+    if not ctx_recs:
+        ck.note("step-level binding skipped: no RuntimeContext creation was observed (restructured code)")
+    else:
+        cres = tlc.judge("Trace_DepthSteps", "Trace_DepthSteps.cfg", ctx_recs, workers=4)
+        nctx = sum(len(x["ctx"]) for x in ctx_recs)
+        if cres.distinct != nctx:
+            raise MachineryError("trace acceptance (context steps): TLC visited %d states, expected %d" % (cres.distinct, nctx))
+        ck.mc(cres, "Trace context steps")
+        ck.count("context_creations_validated_against_Depth_CtxDepth", nctx)
+        if cres.tagged("DIV"):
+            ck.count("context_step_divergences", len(cres.tagged("DIV")))
+            ck.note("divergence: a context's depth is not one Depth!CtxDepth step from its parent's: %s" % cres.tagged("DIV")[:3])
     byid = {x["id"]: x for x in records}
     r = tlc.judge("Trace_Depth", "Trace_Depth.cfg", records, workers=8)
     ck.mc(r, "Trace")
